@@ -171,19 +171,29 @@ M = [('r3_revert_D3_eventmonitor_port',
   None),
  ('r6_revert_D6_reg_name_join',
   'amaranth_soc/csr/reg.py',
-  [('        m.submodules.mux = self._mux\n'
-    '        for reg, reg_name, _ in self.bus.memory_map.resources():\n'
-    '            m.submodules["__".join(str(part) for part in reg_name)] = reg\n'
-    '\n'
-    '        connect(m, flipped(self.bus), self._mux.bus)\n',
-    '        m.submodules.mux = self._mux\n'
-    '        for reg, reg_name, _ in self.bus.memory_map.resources():\n'
-    '            m.submodules["__".join(reg_name)] = reg\n'
-    '\n'
-    '        connect(m, flipped(self.bus), self._mux.bus)\n')],
+  [('        reg_names = ["__".join(str(part) for part in reg_name)\n',
+    '        reg_names = ["__".join(reg_name)\n'),
+   ('                m.submodules["__".join(str(part) for part in reg_name)] = reg\n',
+    '                m.submodules["__".join(reg_name)] = reg\n')],
   None),
  # ce9095a fix: declare event.Monitor.pending as an output
  ("r7_revert_D8_monitor_pending", "amaranth_soc/event.py",
   "            \"pending\": Out(event_map.size),",
   "            \"pending\": In(event_map.size),"),
+ # 27c8276 fix: keep submodule names unique in csr.Register and csr.Bridge
+ ('r8_revert_D10_register_field_names',
+  'amaranth_soc/csr/reg.py',
+  [('            if field_path and field_names.count(field_name) == 1:\n',
+    '            if field_path:\n')],
+  None),
+ ('r9_revert_D10_bridge_reg_names',
+  'amaranth_soc/csr/reg.py',
+  [('            if unambiguous:\n                m.submodules["__".join(str(part) for part in reg_name)] = reg\n            else:\n                m.submodules[f"reg_{reg_index}"] = reg\n',
+    '            m.submodules["__".join(str(part) for part in reg_name)] = reg\n')],
+  None),
+ ('r10_D10_bridge_forgets_mux',
+  'amaranth_soc/csr/reg.py',
+  [('        unambiguous = len(set(reg_names + ["mux"])) == len(reg_names) + 1\n',
+    '        unambiguous = len(set(reg_names)) == len(reg_names)\n')],
+  None),
 ]
